@@ -34,6 +34,9 @@ LEVEL = "exploration"
 NAMES = ["a", "b"]
 READINGS = [("highest", "transparent"), ("highest", "opaque"), ("lowest", "transparent"), ("lowest", "opaque")]
 BATCH = 12
+DDDS_GETTER = {"sfield": "static_fields", "eopfield": "end_of_pdu_fields", "dlfield": "dynamic_length_fields",
+               "emfield": "dynamic_endmarker_fields", "mux": "muxs", "dtcdop": "dtc_dops", "envdata": "env_datas",
+               "envdesc": "env_data_descs"}
 
 
 # ---------------------------------------------------------------------------------------------
@@ -73,7 +76,7 @@ def predict(case: Dict[str, Any], prefix: str = "") -> List[Dict[str, Any]]:
     prot = [i for i, t in enumerate(types) if t in eh.NO_VARS]
     excl = abstract_excluded(case)
     preds: List[Dict[str, Any]] = []
-    seen = set()
+    seen: Dict[str, int] = {}
     for esd, pv in READINGS:
         memo: Dict[Tuple[bool, bool, bool], Any] = {}
         views: List[Dict[str, List[Tuple[str, str]]]] = [dict() for _ in types]
@@ -91,10 +94,11 @@ def predict(case: Dict[str, Any], prefix: str = "") -> List[Dict[str, Any]]:
             conflicts.extend((i, cat, eh.short_name(cat, nms[ni])) for i, ni in cf)
         key = repr((views, conflicts))
         if key in seen:
+            preds[seen[key]]["esds"].add(esd)
             continue
-        seen.add(key)
+        seen[key] = len(preds)
         preds.append({"reading": f"shared-data {esd}, variables through protocols {pv}", "views": views,
-                      "conflicts": conflicts})
+                      "conflicts": conflicts, "esds": {esd}})
     return preds
 
 
@@ -112,9 +116,24 @@ def plain_clash(case: Dict[str, Any]) -> bool:
 class Loader:
     """Writes the emitted files into a private temp dir and loads them through the public Database API."""
 
+    PREFIX = "odxverif_c09_"
+
     def __init__(self) -> None:
-        base = "/dev/shm" if os.path.isdir("/dev/shm") and os.access("/dev/shm", os.W_OK) else None
-        self.dir = tempfile.mkdtemp(prefix="odxverif_c09_", dir=base)
+        self.dir = tempfile.mkdtemp(prefix=f"{self.PREFIX}{os.getpid()}_", dir=self.base())
+
+    @staticmethod
+    def base() -> Optional[str]:
+        return "/dev/shm" if os.path.isdir("/dev/shm") and os.access("/dev/shm", os.W_OK) else None
+
+    @classmethod
+    def sweep(cls) -> None:
+        """Remove directories a killed earlier run left behind (their creating process no longer exists)."""
+        base = cls.base() or tempfile.gettempdir()
+        for fn in os.listdir(base):
+            if fn.startswith(cls.PREFIX):
+                pid = fn[len(cls.PREFIX):].split("_")[0]
+                if pid.isdigit() and not os.path.exists(f"/proc/{pid}"):
+                    shutil.rmtree(os.path.join(base, fn), ignore_errors=True)
 
     def close(self) -> None:
         shutil.rmtree(self.dir, ignore_errors=True)
@@ -191,6 +210,8 @@ def observe(layer: Any, cats: List[str], prefix: str = "") -> Dict[str, Optional
             out[cat] = pairs(ddds.unit_spec.unit_groups) if ddds.unit_spec is not None else []
         elif cat == "var":
             out[cat] = pairs(getattr(layer, "diag_variables", None))
+        else:
+            out[cat] = pairs(getattr(ddds, DDDS_GETTER[cat]))
     return out
 
 
@@ -270,18 +291,27 @@ def classify_diffs(case: Dict[str, Any], pred: Dict[str, Any], obs: List[Dict[st
                 governed = eh.CATEGORIES[cat][1]
                 base = sn[:-len(eh.CATEGORIES[cat][0])] if eh.CATEGORIES[cat][0] else sn
                 excl_here = any(c == i and case["names"][n] == base for c, p, n in case.get("excl", []))
+                applies = excl_here and governed in case.get("excl_lists", eh.EXCL_LISTS)
                 if sn not in g:
-                    out.append((f"C09/view/{cat}/missing/expected-via-{via(e[sn])}", where))
+                    v = via(e[sn])
+                    if v == "local":
+                        out.append((f"C09/view/{cat}/missing-local", where))
+                    elif excl_here and not applies:
+                        out.append((f"C09/view/{cat}/hidden-by-exclusion-list-of-another-category", where))
+                    else:
+                        out.append((f"C09/view/{cat}/missing-inherited/via-{v}", where))
                 elif sn not in e:
-                    kind = "excluded-still-visible" if (excl_here and governed in case.get("excl_lists", eh.EXCL_LISTS)) else \
-                        ("hidden-by-foreign-exclusion-list" if excl_here else "extra")
-                    out.append((f"C09/view/{cat}/{kind}/observed-via-{via(g[sn])}", where))
+                    kind = "excluded-still-visible" if applies else "extra"
+                    out.append((f"C09/view/{cat}/{kind}", where + f" (the observed object reaches the layer via {via(g[sn])})"))
+                elif via(e[sn]) == "local":
+                    out.append((f"C09/view/{cat}/inherited-overrides-local", where))
                 else:
-                    out.append((f"C09/view/{cat}/wrong-object/expected-via-{via(e[sn])}/observed-via-{via(g[sn])}", where))
+                    out.append((f"C09/view/{cat}/wrong-parent-wins/expected-via-{via(e[sn])}/observed-via-{via(g[sn])}", where))
     return out
 
 
-def judge_loaded(case: Dict[str, Any], preds: List[Dict[str, Any]], db: Any, prefix: str, part: Optional[Part]) -> List[Tuple[str, str]]:
+def judge_loaded(case: Dict[str, Any], preds: List[Dict[str, Any]], db: Any, prefix: str, part: Optional[Part],
+                 info: Optional[Dict[str, Any]] = None) -> List[Tuple[str, str]]:
     """The database loaded: compare every layer with the predictions (made for unprefixed layer names), then
     probe decode()."""
     lnames = eh.layer_names(case)
@@ -298,14 +328,17 @@ def judge_loaded(case: Dict[str, Any], preds: List[Dict[str, Any]], db: Any, pre
                        f"strict-mode load succeeded although layer {lnames[c[0]]} inherits different objects named {c[2]!r} "
                        f"from equal-priority parents ({len(preds[0]['conflicts'])} unresolved clashes, every reading)")]
     best, best_diffs = None, None
+    matched_esds: set = set()
     for p in ok_preds:
         d = classify_diffs(case, p, obs, lnames)
         if best_diffs is None or len(d) < len(best_diffs):
             best, best_diffs = p, d
         if not d:
-            break
+            matched_esds |= p["esds"]
     assert best is not None and best_diffs is not None
     out.extend(best_diffs)
+    if len(matched_esds) == 1 and info is not None:
+        info["esd_only"] = next(iter(matched_esds))  # the observation fits one rank of shared data only
     if part is not None:
         part.count("layer_views_compared", len(layers))
         part.count("category_views_compared", sum(1 for o in obs for v in o.values() if v is not None))
@@ -338,24 +371,32 @@ def judge_loaded(case: Dict[str, Any], preds: List[Dict[str, Any]], db: Any, pre
     return out
 
 
-def judge_error(case: Dict[str, Any], preds: List[Dict[str, Any]], exc: BaseException, prefix: str) -> List[Tuple[str, str]]:
+def judge_error(case: Dict[str, Any], preds: List[Dict[str, Any]], exc: BaseException, prefix: str,
+                info: Optional[Dict[str, Any]] = None) -> List[Tuple[str, str]]:
     from odxtools.exceptions import OdxError
     if not isinstance(exc, OdxError):
         return [(f"C09/load/raises-{type(exc).__name__}", f"loading raised {type(exc).__name__}: {str(exc)[:300]}")]
     if any(p["conflicts"] for p in preds):
+        esds: set = set()
+        for p in preds:
+            if p["conflicts"]:
+                esds |= p["esds"]
+        if len(esds) == 1 and info is not None:
+            info["esd_only"] = next(iter(esds))
         return []
     return [("C09/conflict/spurious-error", f"strict-mode load raised {type(exc).__name__}: {str(exc)[:300]} although no reading "
              f"predicts an unresolved clash")]
 
 
-def run_single(loader: Loader, case: Dict[str, Any], part: Optional[Part] = None) -> Tuple[List[Tuple[str, str]], str]:
+def run_single(loader: Loader, case: Dict[str, Any], part: Optional[Part] = None,
+               info: Optional[Dict[str, Any]] = None) -> Tuple[List[Tuple[str, str]], str]:
     """-> (problems, outcome 'loaded' | 'error')"""
     preds = predict(case)
     try:
         db = loader.load([case])
     except Exception as e:  # noqa
-        return judge_error(case, preds, e, ""), "error"
-    return judge_loaded(case, preds, db, "", part), "loaded"
+        return judge_error(case, preds, e, "", info), "error"
+    return judge_loaded(case, preds, db, "", part, info), "loaded"
 
 
 def outcome_digest(case: Dict[str, Any], preds: List[Dict[str, Any]], outcome: str) -> Optional[str]:
@@ -385,8 +426,10 @@ def outcome_digest(case: Dict[str, Any], preds: List[Dict[str, Any]], outcome: s
 # ---------------------------------------------------------------------------------------------
 # enumeration
 # ---------------------------------------------------------------------------------------------
-def exclusion_sets(parents: Sequence[Sequence[int]], place: Sequence[Sequence[int]], k: int) -> Iterator[List[List[int]]]:
-    """All NOT-INHERITED sets: (child, parent, name) may be excluded iff the parent's view offers the name."""
+def exclusion_sets(parents: Sequence[Sequence[int]], place: Sequence[Sequence[int]], k: int,
+                   max_excl: Optional[int] = None) -> Iterator[List[List[int]]]:
+    """All NOT-INHERITED sets (optionally: with at most max_excl entries): (child, parent, name) may be excluded
+    iff the parent's view offers the name."""
     n = len(parents)
 
     def rec(i: int, present: List[set], acc: List[List[int]]) -> Iterator[List[List[int]]]:
@@ -396,6 +439,8 @@ def exclusion_sets(parents: Sequence[Sequence[int]], place: Sequence[Sequence[in
         slots = [[i, p, nm] for p in parents[i] for nm in range(k) if nm in present[p]]
         for bits in itertools.product((0, 1), repeat=len(slots)):
             ex = [s for s, b in zip(slots, bits) if b]
+            if max_excl is not None and len(acc) + len(ex) > max_excl:
+                continue
             pr = {nm for nm in range(k) if place[i][nm]}
             for p in parents[i]:
                 pr |= {nm for nm in present[p] if [i, p, nm] not in ex}
@@ -405,11 +450,12 @@ def exclusion_sets(parents: Sequence[Sequence[int]], place: Sequence[Sequence[in
 
 
 def configurations(types: Sequence[str], parents: Sequence[Sequence[int]], k: int, kinds: Tuple[int, ...] = (0, 1, 2),
-                   skew: bool = True) -> Iterator[Dict[str, Any]]:
+                   skew: bool = True, full: bool = False, max_excl: Optional[int] = None) -> Iterator[Dict[str, Any]]:
     """All cases over one hierarchy with k names (see module docstring); names are interchangeable, so of two
     cases that differ only by swapping the names one is kept."""
     n = len(types)
     base = {"types": list(types), "parents": [list(p) for p in parents], "names": NAMES[:k]}
+    profile = list(eh.FULL_CATS if full else eh.ALL_CATS)
     for flat in itertools.product(kinds, repeat=n * k):
         place = [list(flat[i * k:(i + 1) * k]) for i in range(n)]
         cols = [tuple(place[i][nm] for i in range(n)) for nm in range(k)]
@@ -417,7 +463,7 @@ def configurations(types: Sequence[str], parents: Sequence[Sequence[int]], k: in
             continue
         has_ref = any(2 in c for c in cols)
         clash = None if has_ref else plain_clash(dict(base, place=place))
-        for excl in exclusion_sets(parents, place, k):
+        for excl in exclusion_sets(parents, place, k, max_excl):
             if k == 2:
                 ka = (cols[0], sorted((c, p) for c, p, nm in excl if nm == 0))
                 kb = (cols[1], sorted((c, p) for c, p, nm in excl if nm == 1))
@@ -428,14 +474,14 @@ def configurations(types: Sequence[str], parents: Sequence[Sequence[int]], k: in
                 case["cats"] = list(eh.REFERABLE_CATS)
                 yield case
                 continue
-            case["cats"] = list(eh.ALL_CATS)
+            case["cats"] = list(profile)
             if not excl:
                 yield case
                 continue
             # objects of the categories without a NOT-INHERITED list ignore `excl`; if they clash, the load
             # fails for their sake and would hide what the exclusions do -> leave them out in that case
             if clash:
-                case["cats"] = list(eh.EXCLUDABLE_CATS)
+                case["cats"] = [c for c in profile if c in eh.EXCLUDABLE_CATS]
                 yield case
                 continue
             yield case
@@ -450,7 +496,7 @@ def configurations(types: Sequence[str], parents: Sequence[Sequence[int]], k: in
 # work units
 # ---------------------------------------------------------------------------------------------
 def explore_unit(unit: Tuple[Any, ...]) -> Part:
-    types, parents, k, kinds, skew, shard, nshards = unit
+    types, parents, k, kinds, skew, full, max_excl, shard, nshards = unit
     part = Part()
     loader = Loader()
     try:
@@ -476,8 +522,18 @@ def explore_unit(unit: Tuple[Any, ...]) -> Part:
             if len(case["excl_lists"]) < len(eh.EXCL_LISTS):
                 part.count("cases_with_partial_exclusion_lists")
 
+        def note_rank(case: Dict[str, Any], info: Dict[str, Any]) -> None:
+            # which rank of shared data the tree implements must be the same everywhere (checked in run())
+            r = info.get("esd_only")
+            if r is not None:
+                part.count("databases_fitting_shared_data_" + r + "_only")
+                if "esd_only_" + r not in part.sets:
+                    part.add("esd_only_" + r, jdump(case))
+
         def single(case: Dict[str, Any], preds: List[Dict[str, Any]]) -> None:
-            probs, outcome = run_single(loader, case, part)
+            info: Dict[str, Any] = {}
+            probs, outcome = run_single(loader, case, part, info)
+            note_rank(case, info)
             report(case, probs)
             finish(case, preds, outcome)
             part.count("databases_loaded")
@@ -496,7 +552,9 @@ def explore_unit(unit: Tuple[Any, ...]) -> Part:
             part.count("databases_loaded")
             for slot, (c, p) in enumerate(batch):
                 prefix = f"k{slot}_" if len(cases) > 1 else ""
-                probs = judge_loaded(c, p, db, prefix, part)
+                info: Dict[str, Any] = {}
+                probs = judge_loaded(c, p, db, prefix, part, info)
+                note_rank(c, info)
                 if probs:
                     # believe a batched finding only if the hierarchy alone shows it too
                     probs1, outcome1 = run_single(loader, c, None)
@@ -510,13 +568,14 @@ def explore_unit(unit: Tuple[Any, ...]) -> Part:
             batch.clear()
 
         idx = 0
-        for case in configurations(types, parents, k, kinds, skew):
+        for case in configurations(types, parents, k, kinds, skew, full, max_excl):
             idx += 1
             if idx % nshards != shard:
                 continue
             preds = predict(case)
             if len(part.samples) < 1 and case["excl"] and len(case["types"]) > 2:
-                part.sample({"case": case, "expected": preds[0]["views"], "conflicts": preds[0]["conflicts"]}, limit=1)
+                part.sample({"case": case, "expected_service_view_per_layer": [v.get("svc") for v in preds[0]["views"]],
+                             "unresolved_clashes": preds[0]["conflicts"], "readings": len(preds)}, limit=1)
             if any(p["conflicts"] for p in preds):
                 single(case, preds)
             else:
@@ -629,42 +688,48 @@ def plan(quick: bool) -> Tuple[List[Tuple[Any, ...]], List[Tuple[Any, ...]], Dic
     punits: List[Tuple[Any, ...]] = []
     bounds: Dict[str, Any] = {}
     if quick:
-        spaces = [(1, 2, (0, 1, 2), True, 1), (2, 2, (0, 1, 2), True, 1), (3, 1, (0, 1, 2), True, 1), (3, 2, (0, 1), False, 4),
-                  (4, 1, (0, 1), False, 2)]
+        spaces = [(1, 2, (0, 1, 2), True, True, 1), (2, 2, (0, 1, 2), True, True, 1), (3, 1, (0, 1, 2), True, True, 2),
+                  (3, 2, (0, 1), False, False, 4), (4, 1, (0, 1), False, False, 2)]
         pspaces = [(2, 1, (0, 1)), (3, 1, (0, 1))]
     else:
-        spaces = [(1, 2, (0, 1, 2), True, 1), (2, 2, (0, 1, 2), True, 1), (3, 1, (0, 1, 2), True, 1), (3, 2, (0, 1, 2), True, 16),
-                  (4, 1, (0, 1, 2), True, 4), (4, 2, (0, 1), False, 0), (5, 1, (0, 1), False, 4)]
+        spaces = [(1, 2, (0, 1, 2), True, True, 1), (2, 2, (0, 1, 2), True, True, 1), (3, 1, (0, 1, 2), True, True, 2),
+                  (3, 2, (0, 1, 2), True, False, 16), (4, 1, (0, 1, 2), True, False, 4), (4, 2, (0, 1), False, False, 0),
+                  (5, 1, (0, 1), False, False, 4)]
         pspaces = [(2, 2, (0, 1, 2)), (3, 1, (0, 1, 2)), (4, 1, (0, 1))]
     desc = []
-    for n, k, kinds, skew, nsh in spaces:
+    for n, k, kinds, skew, full, nsh in spaces:
         hs = ri.hierarchies(n)
         note = ""
+        mx = None
         if n == 5:
             hs = [h for h in hs if is_chain_or_diamond(*h)]
             note = " (chains and single-sink diamonds with <= 2 parents per layer only)"
         if n == 4 and k == 2:
             # two names on four layers: only the hierarchies with one childless layer and an equal-priority pair
             hs = [h for h in hs if len({p for ps in h[1] for p in ps}) == 3 and "equal-priority-parents" in ri.shape_tags(*h)]
-            note = " (single-sink hierarchies with an equal-priority parent pair only)"
-            nsh = 8
+            note = " (single-sink hierarchies with an equal-priority parent pair only; NOT-INHERITED sets with <= 2 entries)"
+            nsh = 4
+            mx = 2
         desc.append(f"{n} layers x {k} name(s): {len(hs)} hierarchies{note}, placement kinds {list(kinds)}, "
-                    f"{'with' if skew else 'without'} partial exclusion lists")
+                    f"{'with' if skew else 'without'} partial exclusion lists, "
+                    f"{'all 19 categories' if full else 'the 11 core categories'}")
         for types, parents in hs:
             for sh in range(nsh):
-                units.append((types, parents, k, kinds, skew, sh, nsh))
+                units.append((types, parents, k, kinds, skew, full, mx, sh, nsh))
     for n, k, kinds in pspaces:
         for types, parents in ri.hierarchies(n):
             punits.append((types, parents, k, kinds))
     bounds["spaces"] = desc
     bounds["parent_view_phase"] = [f"{n} layers x {k} name(s), kinds {list(kinds)}" for n, k, kinds in pspaces]
     bounds["allowed_parent_types"] = {k: list(v) for k, v in ri.ALLOWED_PARENTS.items()}
-    bounds["categories"] = eh.ALL_CATS
+    bounds["categories_core"] = eh.ALL_CATS
+    bounds["categories_all"] = eh.FULL_CATS
     bounds["batch"] = BATCH
     return units, punits, bounds
 
 
 def run(ctx: Ctx) -> None:
+    Loader.sweep()
     units, punits, bounds = plan(ctx.quick)
     ctx.bounds = bounds
     ctx.rule = ("every hierarchy (up to renaming of layers) within the layer bound x every placement of the names x every "
@@ -684,10 +749,19 @@ def run(ctx: Ctx) -> None:
     pmap(ctx, parent_unit, punits)
     c = ctx.counts
     c["evaluations"] = c.get("evaluations", 0) + c.get("parent_view_cases", 0)
+    only_h = ctx.sets.pop("esd_only_highest", set())
+    only_l = ctx.sets.pop("esd_only_lowest", set())
+    if only_h and only_l:
+        import json
+        a, b = min(only_h, key=lambda x: (len(x), x)), min(only_l, key=lambda x: (len(x), x))
+        ctx.violation("C09/priority/shared-data-rank-inconsistent", {"mode": "pair", "cases": [json.loads(a), json.loads(b)]},
+                      "one database only fits ECU-SHARED-DATA as the highest-priority parent, another one only as the lowest")
+    ctx.extra["shared_data_rank_implemented"] = "highest" if only_h and not only_l else "lowest" if only_l and not only_h else \
+        "inconsistent" if only_h else "not distinguishable"
     shapes = ctx.sets.get("shapes", set())
     for t in ("single-parent", "multiple-parents", "equal-priority-parents", "mixed-priority-parents", "diamond", "chain>=3"):
         ctx.guard(f"hierarchy shape '{t}' explored", t in shapes)
-    ctx.guard("all eleven categories instantiated", ctx.sets.get("categories", set()) == set(eh.ALL_CATS))
+    ctx.guard("all 19 categories instantiated", ctx.sets.get("categories", set()) == set(eh.FULL_CATS))
     ctx.guard("loads that succeed and loads that report a clash both seen", c.get("hierarchies_loaded", 0) > 0 and c.get("hierarchies_error", 0) > 0)
     ctx.guard("cases with NOT-INHERITED entries seen", c.get("cases_with_exclusions", 0) > 0)
     ctx.guard("cases with partial exclusion lists seen", c.get("cases_with_partial_exclusion_lists", 0) > 0)
@@ -708,6 +782,15 @@ def replay(case: Any) -> List[Tuple[str, str]]:
             alone, _ = run_single(loader, cases[slot], None)
             keys1 = {k for k, _ in alone}
             return [("C09/batch/finding-only-in-shared-database", f"{k}: {d}") for k, d in probs if k not in keys1]
+        if case.get("mode") == "pair":
+            ranks = []
+            for c in case["cases"]:
+                info: Dict[str, Any] = {}
+                run_single(loader, c, None, info)
+                ranks.append(info.get("esd_only"))
+            if set(ranks) == {"highest", "lowest"}:
+                return [("C09/priority/shared-data-rank-inconsistent", f"exclusive readings of the two databases: {ranks}")]
+            return []
         if case.get("mode") == "parent-view":
             c = {k: v for k, v in case.items() if k != "mode"}
             return parent_view_problems(loader, c, None)
